@@ -25,6 +25,7 @@ META = {
 class C01(Scenario):
     modules = ["mxlpy.model"]
     float_shim = ["mxlpy.model"]
+    isinstance_shim = ["mxlpy.model"]  # a symbolic value counts as a float in `isinstance(v, float)` tests
 
     def __init__(self, spec):
         self.spec = spec
